@@ -156,6 +156,13 @@ def _cols(draw, names, kinds):
 
 @st.composite
 def _table(draw):
+    if draw(st.integers(0, 79)) == 0:
+        # very many narrow binary rows (1-2 bytes each): row counts beyond 2^16 / 2^20, where a reader that works
+        # in blocks of rows starts its second block
+        code = draw(st.sampled_from(["|i1", "|u1", "<i2"]))
+        n = draw(st.sampled_from([2 ** 16, 2 ** 20, 2 ** 21])) + draw(st.integers(1, 9))
+        return None, {"descr": [["a", code]], "nrows": n, "fill": "rand", "seed": draw(st.integers(0, 2 ** 32 - 1)),
+                      "cells": [], "kind": "binary"}
     delim = draw(st.sampled_from(DELIMS))
     t = draw(T.tables(kind="binary" if delim is None else "text", max_fields=5, max_rows=12, big_rows=300,
                         allow_mixed_order=True, sizes=True))
